@@ -17,8 +17,11 @@ FromLog(r) ==
      ssg |-> SetF(r.ssg), slt |-> SetF(r.slt), S |-> Range(r.S), T |-> Range(r.T), X |-> Range(r.X), I |-> Range(r.I),
      inc |-> [k \in Inc |-> IF k \in Range(r.I) THEN IncOf(r.inc[k - 31]) ELSE NoInc], cr |-> Range(r.cr)]
 
+(* sibling events: after a cut-out the SOURCE network and the cut-out are two networks; a later removal on one of them   *)
+(* must leave the other one untouched ("every element not selected for removal is still present with unchanged content") *)
 EvClause(e, errs) ==
-    IF e.res # "ok" THEN "C10.Total/" \o e.op
+    IF e.op = "sibling" THEN (IF e.pre # e.post THEN "C10.KeptUnchanged/sibling-network" ELSE "")
+    ELSE IF e.res # "ok" THEN "C10.Total/" \o e.op
     ELSE LET n == FromLog(e.pre) IN
          IF ~WellFormed(n) THEN (IF errs > 0 THEN "" ELSE "driver/ill-formed-pre")   \* after a reported violation the rest of the trace is outside the quantifier
          ELSE Clause(n, [op |-> e.op, ids |-> e.ids, ref |-> e.ref], FromLog(e.post))
